@@ -312,8 +312,9 @@ class GeoPolygon(PolygonBase, SimpleShapeMixin):
         if len(self.outline) != len(other.outline):
             return False  # Can't match if not the same number of points
 
-        s_outline = self.outline[0:-1]
-        o_outline = other.outline[0:-1]
+        # A one-vertex polygon is stored as a single coordinate: that coordinate is its open outline
+        s_outline = self.outline[0:-1] or self.outline
+        o_outline = other.outline[0:-1] or other.outline
         outline_eq = False
         for _ in range(0, max(len(o_outline), 1)):
             # Rotate the outline
